@@ -69,6 +69,62 @@ Proof.
       * apply Hall. lia.
 Qed.
 
+(* a configured delay or backoff changes neither which attempts are made nor which result is returned ... *)
+Theorem http_retry_b_same_attempts base maxd : forall script last n idx,
+  fst (http_retry_b base maxd last script n idx) = fst (http_retry script n idx).
+Proof.
+  induction script as [|a rest IH]; intros last n idx; cbn [http_retry_b http_retry]; [reflexivity|].
+  destruct (negb (http_retryable a)); [reflexivity|]. destruct (http_abort a); [destruct n; reflexivity|].
+  destruct n as [|n]; [reflexivity|].
+  specialize (IH (if http_delay a =? -1 then (if base =? 0 then last else fixed_delay base maxd last idx) else last) n (S idx)).
+  destruct (http_retry_b base maxd _ rest n (S idx)) as [[r k] ds]. destruct (http_retry rest n (S idx)) as [[r' k'] ds'].
+  cbn [fst] in *. exact IH.
+Qed.
+
+(* ... and without one it is the default policy *)
+Theorem http_retry_b_default : forall script last n idx,
+  http_retry_b 0 0 last script n idx = http_retry script n idx.
+Proof.
+  induction script as [|a rest IH]; intros last n idx; cbn [http_retry_b http_retry]; [reflexivity|].
+  destruct (negb (http_retryable a)); [reflexivity|]. destruct (http_abort a); [destruct n; reflexivity|].
+  destruct n as [|n]; [reflexivity|]. unfold fixed_delay. cbn [Z.eqb].
+  replace (if http_delay a =? -1 then last else last) with last by (destruct (http_delay a =? -1); reflexivity).
+  rewrite IH. destruct (http_retry rest n (S idx)) as [[r k] ds]. reflexivity.
+Qed.
+
+Lemma fixed_delay_nonneg base maxd last k : 0 <= base -> 0 <= maxd -> 0 <= last -> 0 <= fixed_delay base maxd last k.
+Proof.
+  intros Hb Hm Hl. unfold fixed_delay. destruct (base =? 0); [lia|].
+  destruct (negb (last =? 0) && negb (Nat.eqb k 0) && negb (maxd =? 0)); lia.
+Qed.
+
+(* whatever delay or backoff is configured besides, the wait scheduled after an attempt that carried a Retry-After in
+   seconds (on a 429 or 503) is at least that long, and no wait is negative *)
+Theorem retry_after_waited base maxd : 0 <= base -> 0 <= maxd -> forall script last n idx r k ds,
+  0 <= last ->
+  http_retry_b base maxd last script n idx = (r, k, ds) ->
+  forall j d, nth_error ds j = Some d ->
+  exists a, nth_error script j = Some a /\ retry_after_floor a <= d /\ 0 <= d.
+Proof.
+  intros Hb Hm. induction script as [|a rest IH]; intros last n idx r k ds Hl H j d Hj; cbn [http_retry_b] in H.
+  - injection H as _ _ <-. destruct j; discriminate.
+  - destruct (negb (http_retryable a)); [injection H as _ _ <-; destruct j; discriminate|].
+    destruct (http_abort a); [destruct n; injection H as _ _ <-; destruct j; discriminate|].
+    destruct n as [|n]; [injection H as _ _ <-; destruct j; discriminate|].
+    pose proof (fixed_delay_nonneg base maxd last idx Hb Hm Hl) as Hf.
+    set (last' := if http_delay a =? -1 then (if base =? 0 then last else fixed_delay base maxd last idx) else last) in H.
+    assert (Hl' : 0 <= last') by (unfold last'; destruct (http_delay a =? -1); [destruct (base =? 0)|]; lia).
+    destruct (http_retry_b base maxd last' rest n (S idx)) as [[r' k'] ds'] eqn:E. injection H as _ _ <-.
+    destruct j as [|j]; cbn [nth_error] in Hj |- *.
+    + injection Hj as <-. exists a. split; [reflexivity|].
+      unfold retry_after_floor, http_delay.
+      destruct a as [rs|e]; [|change (-1 =? -1) with true; cbv iota; lia].
+      destruct ((rs_status rs =? 429) || (rs_status rs =? 503)); [|change (-1 =? -1) with true; cbv iota; lia].
+      destruct (rs_retry_after rs) as [s|]; [|change (-1 =? -1) with true; cbv iota; lia].
+      destruct (s * 1000000000 =? -1) eqn:E1; lia.
+    + eapply IH; [exact Hl'|exact E|exact Hj].
+Qed.
+
 (* every attempt of a sequential retry sequence carries the same, complete body *)
 Theorem every_attempt_same_body b n x : In x (bodies_of_attempts b n) -> x = attempt_body b.
 Proof. unfold bodies_of_attempts. apply repeat_spec. Qed.
